@@ -1,6 +1,6 @@
 """Per-property registry: Lean module + theorems (proof obligations), translator items,
 the suite that runs correspondence and the oracle search."""
-from props import c05, c06, c07, c08, c12, c19
+from props import c01, c05, c06, c07, c08, c09, c12, c13, c19, c20
 
 TRUSTED_BASE = [
     "Lean 4.33 kernel; axioms limited to propext, Classical.choice, Quot.sound (audited by #print axioms on every run)",
@@ -42,18 +42,33 @@ REG = {
         "technique": "Lean 4 proof over translator-generated kernel + model/implementation correspondence",
         "assumptions": [],
     },
-    "C08": {
-        "module": "NirVerif.Properties.C08",
-        "theorems": [],
-        "translator": ["T1", "T4", "T5"],
-        "run": c08.run,
-        "rule": "Consistent graphs built forwards from Inputs (all primitives, fan-in/out, residual/recurrent/self/"
-                "parallel edges, shuffled edge and node order) with random subsets of erasable annotations erased or "
-                "an Output shape replaced by a wrong one; ground truth known by construction.",
-        "level_text": "", "level_note": "", "technique": "",
-        "assumptions": [],
-    },
 }
+
+
+def _reg(pid, run, theorems=(), translator=("T1",), rule="", level_text="", level_note="", technique="", assumptions=()):
+    REG[pid] = {"module": f"NirVerif.Properties.{pid}", "theorems": list(theorems), "translator": list(translator),
+                "run": run, "rule": rule, "level_text": level_text, "level_note": level_note,
+                "technique": technique or "Lean 4 proof over hand-written model + model/implementation correspondence",
+                "assumptions": list(assumptions)}
+
+
+_reg("C01", c01.run)
+_reg("C05", c05.run)
+_reg("C08", c08.run, translator=("T1", "T4", "T5"),
+     rule="Consistent graphs built forwards from Inputs (all primitives, fan-in/out, residual/recurrent/self/parallel "
+          "edges, shuffled edge and node order) with random subsets of erasable annotations erased or an Output shape "
+          "replaced by a wrong one; ground truth known by construction.")
+_reg("C09", c09.run, theorems=["NirVerif.C09.iff", "NirVerif.C09.rejects"],
+     rule="All multigraphs on 2 nodes with <=2 (thorough <=3) edges x 4 shape options per port, plus sampled graphs of "
+          "1-5 nodes with shapes of rank 0..3, undefined ports, tuple/int32/int64 containers, cycles and parallel edges.",
+     level_text="Kernel-checked: on every flat single-port graph (any topology, order, multiplicity) the modelled check "
+                "returns True iff every edge joins a defined output shape to an equal defined input shape, and otherwise "
+                "raises ValueError. The model is tied to _check_types by differential testing on enumerated and sampled graphs.",
+     level_note="Lean kernel; hand-written model of _check_types and of np.array_equal on shape values; correspondence sampling.")
+_reg("C12", c12.run)
+_reg("C13", c13.run)
+_reg("C19", c19.run)
+_reg("C20", c20.run)
 
 NOT_APPLICABLE = {}
 
